@@ -267,6 +267,38 @@ impl Dg {
         }
     }
 
+    /// K # rho(K) for a knot diagram K (pure PD code): the equivariant connected sum with the rotation rho by pi about an axis in
+    /// the plane that meets the knot only in the two connecting arcs, so *no crossing lies on the axis*.  Edges are numbered
+    /// 1..4n along the knot (n = crossings of K): edge 1 and edge 2n+1 are the connecting arcs (fixed by rho), 2..2n run through K,
+    /// 2n+2..4n through rho(K), and rho(e) = 4n+2-e.  A crossing [a,b,c,d] of K has image [rb,ra,rd,rc] (positive) / [rd,rc,rb,ra] (negative).
+    pub fn sym_double(&self) -> Result<Dg, String> {
+        if self.x.is_empty() || self.x.iter().any(|c| c.0 != CT::X) { return Err("pure PD code of a knot needed".into()) }
+        let o = self.orient(0)?;
+        if o.strands.len() != 1 { return Err("not a knot".into()) }
+        let s = &o.strands[0];
+        let m = s.labels.len(); // 2n
+        // consecutive numbering along the orientation: label after passage t -> t+1
+        let pos: HashMap<usize, usize> = s.labels.iter().enumerate().map(|(t, l)| (*l, t + 1)).collect();
+        if pos.len() != m { return Err("edge labels are not distinct along the knot".into()) }
+        let mut k = self.renumber(|l| pos[&l]);
+        // cut edge 1: its tail (the slot where it leaves a crossing) becomes edge 2n+1
+        let o2 = k.orient(0)?;
+        let ((i, ko), _) = k.ends(&o2, 1).ok_or("edge 1 not found")?;
+        if o2.strands[0].labels.first() != Some(&1) && !o2.strands[0].labels.contains(&1) { return Err("renumbering failed".into()) }
+        k.x[i].1[ko] = m + 1;
+        let nn = 2 * m;
+        let rho = |e: usize| (nn + 1 - e) % nn + 1;
+        let mut out = k.clone();
+        for (idx, (_, c)) in k.x.iter().enumerate() {
+            let sign = o2.signs[idx].ok_or("crossing without sign")?;
+            let r = c.map(rho);
+            out.x.push((CT::X, if sign > 0 { [r[1], r[0], r[3], r[2]] } else { [r[3], r[2], r[1], r[0]] }));
+        }
+        let oo = out.orient(0)?;
+        if oo.strands.len() != 1 || out.labels().len() != nn { return Err("double is not a knot diagram on 4n edges".into()) }
+        Ok(out)
+    }
+
     /// an unknotted circle laid over (over = true) or under an edge (Reidemeister II of a split unknot): L ~> L u O
     pub fn circle_across(&self, label: usize, over: bool) -> Result<Dg, String> {
         let o = self.orient(0)?;
